@@ -23,8 +23,9 @@ type Field struct {
 // F is an element of the model field: a polynomial over the run's symbolic variables (a constant
 // polynomial is a concrete element). It satisfies algebra.PrimeFieldElement[*F].
 type F struct {
-	f *Field
-	p *Poly
+	f   *Field
+	p   *Poly
+	raw *node
 }
 
 var (
@@ -34,7 +35,15 @@ var (
 
 const elemSize = 32
 
-func (f *Field) mk(p *Poly) *F { return &F{f: f, p: p} }
+// mk builds an element without operation history (constants, variables, decoded values).
+func (f *Field) mk(p *Poly) *F { return &F{f: f, p: p, raw: rawOfPoly(p)} }
+
+func (f *Field) mkr(p *Poly, raw *node) *F {
+	if raw == nil || p.isConst() {
+		return f.mk(p)
+	}
+	return &F{f: f, p: p, raw: raw}
+}
 
 // ---- structure
 
@@ -109,7 +118,7 @@ func (f *Field) Random(prng io.Reader) (*F, error) {
 	if err != nil {
 		return nil, err
 	}
-	return f.mk(f.run.newVar(name)), nil
+	return f.mk(f.run.drawVar(name)), nil
 }
 
 // drawSize is the number of bytes the real generated fields read per random element
@@ -152,7 +161,7 @@ func pLEof(a, b *Poly) Pred {
 // ---- element
 
 func (e *F) Structure() algebra.Structure[*F] { return e.f }
-func (e *F) Clone() *F                         { return &F{f: e.f, p: e.p} }
+func (e *F) Clone() *F                         { return &F{f: e.f, p: e.p, raw: e.raw} }
 func (e *F) Poly() *Poly                       { return e.p }
 
 // IsSymbolic reports whether the element depends on symbolic variables.
@@ -166,11 +175,11 @@ func (e *F) Big() *big.Int {
 	return e.p.constVal()
 }
 
-func (e *F) Add(o *F) *F       { return e.f.mk(e.p.add(o.p, e.f.q)) }
-func (e *F) Sub(o *F) *F       { return e.f.mk(e.p.sub(o.p, e.f.q)) }
-func (e *F) Neg() *F           { return e.f.mk(e.p.neg(e.f.q)) }
-func (e *F) Double() *F        { return e.f.mk(e.p.scale(big.NewInt(2), e.f.q)) }
-func (e *F) Mul(o *F) *F       { return e.f.mk(e.p.mul(o.p, e.f.q)) }
+func (e *F) Add(o *F) *F       { return e.f.mkr(e.p.add(o.p, e.f.q), rawAdd(e.raw, o.raw)) }
+func (e *F) Sub(o *F) *F       { return e.f.mkr(e.p.sub(o.p, e.f.q), rawSub(e.raw, o.raw)) }
+func (e *F) Neg() *F           { return e.f.mkr(e.p.neg(e.f.q), rawNeg(e.raw)) }
+func (e *F) Double() *F        { return e.f.mkr(e.p.scale(big.NewInt(2), e.f.q), rawScale(e.raw, big.NewInt(2))) }
+func (e *F) Mul(o *F) *F       { return e.f.mkr(e.p.mul(o.p, e.f.q), rawMul(e.raw, o.raw)) }
 func (e *F) Square() *F        { return e.Mul(e) }
 func (e *F) Op(o *F) *F        { return e.Add(o) }
 func (e *F) OtherOp(o *F) *F   { return e.Mul(o) }
